@@ -5,7 +5,7 @@
 (* (set of failed clauses) is printed as one JSON line when non-empty.     *)
 (* Acceptance = every line of the trace file was consumed.                 *)
 (***************************************************************************)
-EXTENDS JudgeTx, JudgeSat, JudgeGraph, JudgeLint, JudgeApi, JudgeComp, JudgeFrame, JudgeLogic, Json, IOUtils
+EXTENDS JudgeTx, JudgeSat, JudgeGraph, JudgeLint, JudgeApi, JudgeComp, JudgeFrame, JudgeLogic, CGNetlist, Json, IOUtils
 
 Tr == ndJsonDeserialize(IOEnv.TRACE_FILE)
 
@@ -41,6 +41,10 @@ JudgeEvent(e) ==
     [] e.kind = "logic" -> Judge_logic(e)
     [] e.kind = "clog2" -> Judge_clog2(e)
     [] e.kind = "int_to_bin" -> Judge_int_to_bin(e)
+    [] e.kind = "parse" -> Judge_parse(e)
+    [] e.kind = "v_roundtrip" -> Judge_v_roundtrip(e)
+    [] e.kind = "bench_roundtrip" -> Judge_bench_roundtrip(e)
+    [] e.kind = "parse2" -> Judge_parse2(e)
     [] e.kind = "api_history"  -> Judge_api_history(e)
     [] OTHER -> {"MACHINERY:unknown_kind"}
 
